@@ -21,11 +21,38 @@ def _view(agent, algo):
     return v, sn
 
 
-def run(algo, n_pop, k, n_new, elitism, W, fit_hist, generations, seed=0):
-    """fit_hist: list (per agent) of integer score lists for the first generation; later generations append
-    seeded random integer scores. Returns trace for EvoSelect_Trace."""
+class _NoMutation:
+    """stub *input* of tournament_selection_and_mutation: a Mutations object that leaves the population as it is"""
+
+    def mutation(self, population, pre_training_mut=False):
+        return population
+
+
+def _score(units, fscale, ftype, pos):
+    """fitness value units / fscale in the container element type a training loop may produce"""
+    x = units / fscale
+    t = ftype if ftype != "mixed" else ("float", "np64", "np32", "int")[pos % 4]
+    if t == "np64":
+        return np.float64(x)
+    if t == "np32":
+        return np.float32(x)                    # exact: dyadic with few bits
+    if t == "int" and float(x).is_integer():
+        return int(x)
+    return float(x)
+
+
+def run(algo, n_pop, k, n_new, elitism, W, fit_hist, generations, seed=0, opts=None):
+    """fit_hist: list (per agent) of integer score lists (in units of 1 / fscale) for the first generation; later generations
+    append seeded random scores. Returns trace for EvoSelect_Trace (fitness in the trace in the same integer units).
+    opts (all optional): fscale (1 | 2 | 4 | ...: scores are multiples of 1/fscale), foffset (added to every score, in units),
+    ftype (float | np64 | np32 | int | mixed: element type of the fitness lists), hetero (members differ in learning rate,
+    batch size, hidden size, steps, scores, mut), via ("select" | "utils": through agilerl.utils.utils.
+    tournament_selection_and_mutation with an identity mutation stub), save_elite (utils route only)."""
     from agilerl.hpo.tournament import TournamentSelection
 
+    opts = dict(opts or {})
+    fscale, foffset, ftype = int(opts.get("fscale", 1)), int(opts.get("foffset", 0)), opts.get("ftype", "float")
+    hetero, via, save_elite = bool(opts.get("hetero", False)), opts.get("via", "select"), bool(opts.get("save_elite", False))
     torch.set_num_threads(1)
     rng = np.random.RandomState(seed)
     pop = []
@@ -33,16 +60,28 @@ def run(algo, n_pop, k, n_new, elitism, W, fit_hist, generations, seed=0):
     # from two runs) -- the position in the list carries no meaning
     base = [list(range(n_pop)), list(range(n_pop))[::-1], [10, 11, 3, 9, 0, 7, 5][:n_pop]][seed % 3]
     for i in range(n_pop):
-        a = zoo.make_agent(algo, "vector", seed=100 + seed * 10 + i, index=base[i])
+        kw = {}
+        if hetero:                             # a population after hyperparameter / architecture mutations: no two members alike
+            kw = {"lr": 1e-3 * (i + 1), "lr_actor": 1e-3 * (i + 1), "lr_critic": 2e-3 * (i + 1),
+                  "net_config": {"encoder_config": {"hidden_size": [16 + 8 * (i % 3)]}, "head_config": {"hidden_size": [16 + 8 * ((i + 1) % 2)]}}}
+        a = zoo.make_agent(algo, "vector", seed=100 + seed * 10 + i, index=base[i], **kw)
+        if hetero:
+            a.batch_size = (8, 4, 16)[i % 3]
         zoo.learn(a, algo, i + 1)              # distinct weights + non-trivial optimizer state
-        a.fitness = [float(x) for x in fit_hist[i]]
+        if hetero:
+            a.steps = [0] * (1 + i % 2) + [100 * (i + 1)]
+            a.scores = [float(i - 1)] * (i % 3)
+            a.mut = (None, "lr", "arch", "param", "act")[i % 5]
+        a.fitness = [_score(x + foffset, fscale, ftype, i + q) for q, x in enumerate(fit_hist[i])]
         pop.append(a)
     ts = TournamentSelection(tournament_size=k, elitism=elitism, population_size=n_new, eval_loop=W)
     ev = []
     for g in range(generations):
         e = {"op": "select", "exc": "", "k": k, "n": n_new, "elitism": bool(elitism), "W": W,
-             "idxs": [int(a.index) for a in pop], "fit": [[int(round(x)) for x in a.fitness] for a in pop],
-             "draws": [], "sel": [], "elite": {"parents": [], "idx": 0, "faithful": False}, "old_untouched": False, "shared": []}
+             "idxs": [int(a.index) for a in pop], "fit": [[int(round(float(x) * fscale)) for x in a.fitness] for a in pop],
+             "draws": [], "sel": [], "elite": {"parents": [], "idx": 0, "faithful": False}, "old_untouched": False, "shared": [],
+             "via": via, "wiring": True, "wiring_note": ""}
+        assert all(abs(float(x) * fscale - u) < 1e-9 for a, us in zip(pop, e["fit"]) for x, u in zip(a.fitness, us)), "fitness not on the grid"
         before = [_view(a, algo) for a in pop]
         pol = pop[0].registry.policy
         wkey = [json_key(b[0]["nets"][pol]) for b in before]
@@ -64,7 +103,10 @@ def run(algo, n_pop, k, n_new, elitism, W, fit_hist, generations, seed=0):
         np.random.seed(seed * 1000 + g)
         try:
             with mock.patch.object(np.random, "randint", logging_randint):
-                elite, new_pop = ts.select(pop)
+                if via == "utils":
+                    elite, new_pop = _via_utils(ts, pop, algo, save_elite, e, seed + g)
+                else:
+                    elite, new_pop = ts.select(pop)
         except Exception as ex:
             e["exc"] = f"{type(ex).__name__}: {ex}"[:200]
             ev.append(e)
@@ -94,11 +136,62 @@ def run(algo, n_pop, k, n_new, elitism, W, fit_hist, generations, seed=0):
         ev.append(e)
         # next generation: evaluate (append integer scores), sometimes train
         pop = new_pop if (seed + g) % 2 == 0 else new_pop[::-1]       # every other generation handed on in another order
-        for a in pop:
-            a.fitness.append(float(rng.randint(-2, 4)))
+        for q, a in enumerate(pop):
+            u = int(rng.randint(-2, 4)) * fscale + (int(rng.randint(0, fscale)) if fscale > 1 else 0)
+            a.fitness.append(_score(u + foffset, fscale, ftype, g + q))
         if g % 2 == 0:
             zoo.learn(pop[rng.randint(len(pop))], algo, 20 + g)
-    return {"cfg": {"algo": algo, "n_pop": n_pop, "k": k, "n": n_new, "elitism": bool(elitism), "W": W}, "ev": ev}
+    cfg = {"algo": algo, "n_pop": n_pop, "k": k, "n": n_new, "elitism": bool(elitism), "W": W}
+    if opts:
+        cfg["opts"] = {x: opts[x] for x in sorted(opts)}
+    return {"cfg": cfg, "ev": ev}
+
+
+def _via_utils(ts, pop, algo, save_elite, e, salt):
+    """The training loops' helper: real tournament_selection_and_mutation with the real TournamentSelection and an identity
+    mutation stub; ts.select is observed (not altered). Records in e["wiring"] whether the helper handed the population to
+    select as it was, returned select's generation member by member, and (save_elite) saved the elite select returned."""
+    import os
+    import shutil
+    import tempfile
+
+    import dill
+    from agilerl.utils.utils import tournament_selection_and_mutation
+
+    got = {}
+    real_select = ts.select
+
+    def spy(p):
+        got["arg"] = p
+        got["ret"] = real_select(p)
+        return got["ret"]
+    tmp = tempfile.mkdtemp(prefix="vfw-c05-")
+    path = os.path.join(tmp, f"elite_{salt}.pt")
+    try:
+        with mock.patch.object(ts, "select", spy):
+            kw = {"elite_path": path, "save_elite": True} if save_elite else {}
+            if salt % 2:
+                kw["algo"] = algo
+            out = tournament_selection_and_mutation(pop, ts, _NoMutation(), "vfw-env", **kw)
+        notes = []
+        if "ret" not in got:
+            raise RuntimeError("tournament_selection_and_mutation did not call tournament.select")
+        elite, new_pop = got["ret"]
+        if [id(a) for a in got["arg"]] != [id(a) for a in pop]:
+            notes.append("select was handed other agents / another order than the population")
+        if [id(a) for a in out] != [id(a) for a in new_pop]:
+            notes.append("the returned population is not select's generation (members / order)")
+        if save_elite:
+            if not os.path.exists(path):
+                notes.append("elite checkpoint not written at elite_path")
+            else:
+                ck = torch.load(path, pickle_module=dill, weights_only=False)
+                if ck.get("index") != elite.index or [float(x) for x in ck.get("fitness", [])] != [float(x) for x in elite.fitness]:
+                    notes.append("the saved elite checkpoint is not the elite's")
+        e["wiring"], e["wiring_note"] = not notes, "; ".join(notes)
+        return elite, list(out)
+    finally:
+        shutil.rmtree(tmp, ignore_errors=True)
 
 
 def json_key(x):
